@@ -103,6 +103,10 @@ def h_hostile_fd(ex, kinds, srcs, gaps, phase='fresh', length=None, mpglen=4):
         if phase in ('in_mid', 'in_bam'):
             w.inject(n, tp21.can_id(7, tp22.PF_DT, 255 if phase == 'in_bam' else S, P), tp22.dt_frame(3, 1, [(j * 5) % 256 for j in range(inL)]), fd=True)
             w.run(until=w.now + T('1/100'))
+    elif phase == 'bam':
+        # an own broadcast (5 segments, 10 ms apart) is running when the traffic starts
+        st.ca.send_pgn(0, 0xFE, 0x33, 6, [(j * 3) % 256 for j in range(250)])
+        w.run(until=w.now + T('15/1000'))
     elif phase != 'fresh':
         st.ca.send_pgn(0, MSG_PF, P, 6, [(j * 3) % 256 for j in range(250)])   # 5 segments
         w.run(until=w.now + T('1/100'))
@@ -177,6 +181,9 @@ def jobs(tier):
         J(kinds=['dt'], srcs=[P], gaps=['0'], phase=ph, length=64)
         for ml in ((8, 200) if q else (0, 1, 4, 8, 9, 60, 200, 255)):
             J(kinds=['mpg'], srcs=[P], gaps=['0'], phase=ph, length=16, mpglen=ml)
+    for kd in ('cm', 'dt'):
+        for src in ((P, 255) if q else (P, S, 254, 255)):
+            J(kinds=[kd], srcs=[src], gaps=['0'], phase='bam')
     for ph in ('in_rts', 'in_mid', 'in_bam'):
         for kd in ('cm', 'dt'):
             for src in ((P,) if q else (P, S, 254)):
